@@ -104,10 +104,33 @@ def dyadic_curve(rng, n, family=None, scale_exp=None):
         mn = min(y)
         y = [v - mn for v in y]
     if scale_exp is None:
-        scale_exp = rng.choice([0, 0, 0, -20, 20, 40, -55, -60]) if rng.random() < 0.2 else 0
+        pts = np.array([[float(a), float(b)] for a, b in zip(x, y)], dtype=float)
+        pts, tag = variant(rng, pts)
+        return pts, family + tag
     sc = 2.0 ** scale_exp
     pts = np.array([[float(a), float(b) * sc] for a, b in zip(x, y)], dtype=float)
     return pts, family
+
+
+def variant(rng, pts, p=0.28, kinds=('y', 'y', 'y', 'xoff', 'xtiny', 'xytiny', 'xhuge')):
+    """Magnitude variants of a curve by exact power-of-two scalings / an exactly representable x offset. Returns (points, family suffix)."""
+    if rng.random() >= p:
+        return pts, ''
+    kind = rng.choice(list(kinds))
+    pts = np.array(pts, dtype=float)
+    if kind == 'y':
+        e = rng.choice([-20, 20, 40, -55, -60])
+        pts[:, 1] *= 2.0 ** e
+        return pts, '@y2^%d' % e
+    if kind == 'xoff':
+        pts[:, 0] += 2.0 ** 40            # epoch-millisecond style abscissae: exactly representable, tiny relative spacing
+    elif kind == 'xtiny':
+        pts[:, 0] *= 2.0 ** -40
+    elif kind == 'xhuge':
+        pts[:, 0] *= 2.0 ** 30
+    else:
+        pts *= 2.0 ** -40
+    return pts, '@' + kind
 
 
 def float_curve(rng, n):
